@@ -19,10 +19,9 @@
 (* TLC enumerates token sequences as states and checks: the scanner agrees  *)
 (* with the declared partitions in every context (Compositional), every     *)
 (* text is lexically complete (AllValid), the transcribed algorithm tiles   *)
-(* the text (ImplLossless) and meets the demands on every text without a    *)
-(* hazard token (ImplOKOffHazards); where it fails, the first failure is    *)
-(* not before the hazard token (HazardLocal).  Every state is published     *)
-(* (text, Ref partition, Impl prediction) for the binding to the real code. *)
+(* the text (ImplLossless) and meets the demands on every text (ImplOK).    *)
+(* Every state is published (text, Ref partition, Impl prediction) for the  *)
+(* binding to the real code.                                                *)
 EXTENDS Naturals, Sequences, FiniteSets, TLC, Json
 
 CONSTANTS MaxToks,   \* tokens per text
@@ -48,87 +47,93 @@ Cimport == <<"c","i","m","p","o","r","t">>
 Include == <<"i","n","c","l","u","d","e">>
 FX == <<"{","x","}">>
 
-Sh(nm, ct, hazard, lv, segs) == [name |-> nm, cat |-> ct, hz |-> hazard, lvl |-> lv, cs |-> segs]
+Sh(nm, ct, lv, segs) == [name |-> nm, cat |-> ct, lvl |-> lv, cs |-> segs]
 
 Shapes == <<
   \* ---- plain strings
-  Sh("sq", "plain", "", 1, P_(<<SQ>>) \o L_(<<"a","b">>) \o P_(<<SQ>>)),
-  Sh("dq", "plain", "", 2, P_(<<DQ>>) \o L_(<<"a">>) \o P_(<<DQ>>)),
-  Sh("sq0", "plain", "", 2, P_(<<SQ,SQ>>)),
-  Sh("dq0", "plain", "", 3, P_(<<DQ,DQ>>)),
-  Sh("sq_dq", "plain", "", 1, P_(<<SQ>>) \o L_(<<DQ>>) \o P_(<<SQ>>)),
-  Sh("dq_sq", "plain", "", 2, P_(<<DQ>>) \o L_(<<SQ>>) \o P_(<<DQ>>)),
-  Sh("sq_esc", "plain", "", 1, P_(<<SQ>>) \o L_(<<"a",BS,SQ,"b">>) \o P_(<<SQ>>)),
-  Sh("dq_bs2", "plain", "", 2, P_(<<DQ>>) \o L_(<<"a",BS,BS>>) \o P_(<<DQ>>)),
-  Sh("sq_bs3", "plain", "", 3, P_(<<SQ>>) \o L_(<<BS,BS,BS,SQ,"b">>) \o P_(<<SQ>>)),
-  Sh("dq_hash", "plain", "", 2, P_(<<DQ>>) \o L_(<<"a","#","b">>) \o P_(<<DQ>>)),
-  Sh("sq_lbrace", "plain", "", 2, P_(<<SQ>>) \o L_(<<"{">>) \o P_(<<SQ>>)),
-  Sh("dq_rbrace", "plain", "", 3, P_(<<DQ>>) \o L_(<<"}">>) \o P_(<<DQ>>)),
-  Sh("tsq", "plain", "", 1, P_(SQ3) \o L_(<<"a",SQ,"b">>) \o P_(SQ3)),
-  Sh("tdq_q2", "plain", "", 2, P_(DQ3) \o L_(<<"a",DQ,DQ,"b">>) \o P_(DQ3)),
-  Sh("tsq_nl", "plain", "", 2, P_(SQ3) \o L_(<<"a",NL,"b",DQ>>) \o P_(SQ3)),
-  Sh("tdq_escq", "plain", "", 2, P_(DQ3) \o L_(<<"a",BS,DQ>>) \o P_(DQ3)),
-  Sh("tsq0", "plain", "", 3, P_(SQ3 \o SQ3)),
-  Sh("tdq_mix", "plain", "", 3, P_(DQ3) \o L_(<<"#",SP,SQ,SP,"{">>) \o P_(DQ3)),
-  Sh("sq_cont", "plain", "", 2, P_(<<SQ>>) \o L_(<<"a",BS,NL,"b">>) \o P_(<<SQ>>)),
-  Sh("tdq_dep", "plain", "", 1, P_(DQ3) \o L_(<<NL>> \o Cimport \o <<SP,"q",NL>>) \o P_(DQ3)),
-  Sh("tsq_inc", "plain", "", 3, P_(SQ3) \o L_(<<NL>> \o Include \o <<SP,DQ,"z",DQ,NL>>) \o P_(SQ3)),
-  Sh("tsq_q2sp", "plain", "", 3, P_(SQ3) \o L_(<<"a",SQ,SQ,SP>>) \o P_(SQ3)),
-  Sh("tsq_q1first", "plain", "", 2, P_(SQ3) \o L_(<<SQ,"a">>) \o P_(SQ3)),
-  Sh("tdq_q2first", "plain", "", 3, P_(DQ3) \o L_(<<DQ,DQ,"a">>) \o P_(DQ3)),
-  Sh("r_sq", "plain", "", 2, P_(<<"r",SQ>>) \o L_(<<"a",BS,SQ,"b">>) \o P_(<<SQ>>)),
-  Sh("b_dq", "plain", "", 3, P_(<<"b",DQ>>) \o L_(<<"a">>) \o P_(<<DQ>>)),
-  Sh("U_sq", "plain", "", 3, P_(<<"U",SQ>>) \o L_(<<"a">>) \o P_(<<SQ>>)),
-  Sh("Rb_tdq", "plain", "", 2, P_(<<"R","b">> \o DQ3) \o L_(<<"a",BS,BS>>) \o P_(DQ3)),
-  Sh("bR_sq", "plain", "", 3, P_(<<"b","R",SQ>>) \o L_(FX) \o P_(<<SQ>>)),
+  Sh("sq", "plain", 1, P_(<<SQ>>) \o L_(<<"a","b">>) \o P_(<<SQ>>)),
+  Sh("dq", "plain", 2, P_(<<DQ>>) \o L_(<<"a">>) \o P_(<<DQ>>)),
+  Sh("sq0", "plain", 2, P_(<<SQ,SQ>>)),
+  Sh("dq0", "plain", 3, P_(<<DQ,DQ>>)),
+  Sh("sq_dq", "plain", 1, P_(<<SQ>>) \o L_(<<DQ>>) \o P_(<<SQ>>)),
+  Sh("dq_sq", "plain", 2, P_(<<DQ>>) \o L_(<<SQ>>) \o P_(<<DQ>>)),
+  Sh("sq_esc", "plain", 1, P_(<<SQ>>) \o L_(<<"a",BS,SQ,"b">>) \o P_(<<SQ>>)),
+  Sh("dq_bs2", "plain", 2, P_(<<DQ>>) \o L_(<<"a",BS,BS>>) \o P_(<<DQ>>)),
+  Sh("sq_bs3", "plain", 3, P_(<<SQ>>) \o L_(<<BS,BS,BS,SQ,"b">>) \o P_(<<SQ>>)),
+  Sh("dq_hash", "plain", 2, P_(<<DQ>>) \o L_(<<"a","#","b">>) \o P_(<<DQ>>)),
+  Sh("sq_lbrace", "plain", 2, P_(<<SQ>>) \o L_(<<"{">>) \o P_(<<SQ>>)),
+  Sh("dq_rbrace", "plain", 3, P_(<<DQ>>) \o L_(<<"}">>) \o P_(<<DQ>>)),
+  Sh("tsq", "plain", 1, P_(SQ3) \o L_(<<"a",SQ,"b">>) \o P_(SQ3)),
+  Sh("tdq_q2", "plain", 2, P_(DQ3) \o L_(<<"a",DQ,DQ,"b">>) \o P_(DQ3)),
+  Sh("tsq_nl", "plain", 2, P_(SQ3) \o L_(<<"a",NL,"b",DQ>>) \o P_(SQ3)),
+  Sh("tdq_escq", "plain", 2, P_(DQ3) \o L_(<<"a",BS,DQ>>) \o P_(DQ3)),
+  Sh("tsq0", "plain", 3, P_(SQ3 \o SQ3)),
+  Sh("tdq_mix", "plain", 3, P_(DQ3) \o L_(<<"#",SP,SQ,SP,"{">>) \o P_(DQ3)),
+  Sh("sq_cont", "plain", 2, P_(<<SQ>>) \o L_(<<"a",BS,NL,"b">>) \o P_(<<SQ>>)),
+  Sh("tdq_dep", "plain", 1, P_(DQ3) \o L_(<<NL>> \o Cimport \o <<SP,"q",NL>>) \o P_(DQ3)),
+  Sh("tsq_inc", "plain", 3, P_(SQ3) \o L_(<<NL>> \o Include \o <<SP,DQ,"z",DQ,NL>>) \o P_(SQ3)),
+  Sh("tsq_q2sp", "plain", 3, P_(SQ3) \o L_(<<"a",SQ,SQ,SP>>) \o P_(SQ3)),
+  Sh("tsq_q1first", "plain", 2, P_(SQ3) \o L_(<<SQ,"a">>) \o P_(SQ3)),
+  Sh("tdq_q2first", "plain", 3, P_(DQ3) \o L_(<<DQ,DQ,"a">>) \o P_(DQ3)),
+  Sh("r_sq", "plain", 2, P_(<<"r",SQ>>) \o L_(<<"a",BS,SQ,"b">>) \o P_(<<SQ>>)),
+  Sh("b_dq", "plain", 3, P_(<<"b",DQ>>) \o L_(<<"a">>) \o P_(<<DQ>>)),
+  Sh("U_sq", "plain", 3, P_(<<"U",SQ>>) \o L_(<<"a">>) \o P_(<<SQ>>)),
+  Sh("Rb_tdq", "plain", 2, P_(<<"R","b">> \o DQ3) \o L_(<<"a",BS,BS>>) \o P_(DQ3)),
+  Sh("bR_sq", "plain", 3, P_(<<"b","R",SQ>>) \o L_(FX) \o P_(<<SQ>>)),
   \* ---- f-strings
-  Sh("f_dq", "fstr", "", 1, P_(<<"f",DQ>>) \o L_(<<"a">>) \o E_(FX) \o L_(<<"b">>) \o P_(<<DQ>>)),
-  Sh("f_sq", "fstr", "", 2, P_(<<"f",SQ>>) \o E_(FX) \o P_(<<SQ>>)),
-  Sh("f_esc", "fstr", "", 2, P_(<<"f",DQ>>) \o L_(<<"{","{","a","}","}">>) \o P_(<<DQ>>)),
-  Sh("f_esc3", "fstr", "", 2, P_(<<"f",DQ>>) \o L_(<<"{","{">>) \o E_(FX) \o L_(<<"}","}">>) \o P_(<<DQ>>)),
-  Sh("f_conv_spec", "fstr", "", 1, P_(<<"f",DQ>>) \o E_(<<"{","x","!","r",":">>) \o S_(<<">">>) \o E_(<<"{","w","}","}">>)
+  Sh("f_dq", "fstr", 1, P_(<<"f",DQ>>) \o L_(<<"a">>) \o E_(FX) \o L_(<<"b">>) \o P_(<<DQ>>)),
+  Sh("f_sq", "fstr", 2, P_(<<"f",SQ>>) \o E_(FX) \o P_(<<SQ>>)),
+  Sh("f_esc", "fstr", 2, P_(<<"f",DQ>>) \o L_(<<"{","{","a","}","}">>) \o P_(<<DQ>>)),
+  Sh("f_esc3", "fstr", 2, P_(<<"f",DQ>>) \o L_(<<"{","{">>) \o E_(FX) \o L_(<<"}","}">>) \o P_(<<DQ>>)),
+  Sh("f_conv_spec", "fstr", 1, P_(<<"f",DQ>>) \o E_(<<"{","x","!","r",":">>) \o S_(<<">">>) \o E_(<<"{","w","}","}">>)
                                     \o L_(<<"c">>) \o P_(<<DQ>>)),
-  Sh("f_eq", "fstr", "", 3, P_(<<"f",SQ>>) \o E_(<<"{","x","=","}">>) \o P_(<<SQ>>)),
-  Sh("f_nest_other", "fstr", "", 1, P_(<<"f",DQ>>) \o E_(<<"{","d","[",SQ>>) \o L_(<<"k">>) \o E_(<<SQ,"]","}">>) \o P_(<<DQ>>)),
-  Sh("f_nest_brace", "fstr", "", 2, P_(<<"f",SQ>>) \o E_(<<"{","d","[",DQ>>) \o L_(<<"}">>) \o E_(<<DQ,"]","}">>) \o P_(<<SQ>>)),
-  Sh("f_dict", "fstr", "", 2, P_(<<"f",DQ>>) \o E_(<<"{",SP,"{","1",":","2","}","[","1","]",SP,"}">>) \o P_(<<DQ>>)),
-  Sh("f_dict_same_str", "fstr", "", 2, P_(<<"f",DQ>>) \o E_(<<"{",SP,"{","1",":","2","}","[",DQ>>) \o L_(<<"a">>) \o E_(<<DQ,"]","}">>) \o P_(<<DQ>>)),
-  Sh("f_tri", "fstr", "", 2, P_(<<"f">> \o SQ3) \o L_(<<"a",SQ>>) \o E_(FX) \o L_(<<DQ,NL>>) \o P_(SQ3)),
-  Sh("f_nest_f", "fstr", "", 2, P_(<<"f",DQ>>) \o E_(<<"{","f",SQ>>) \o L_(<<"a">>) \o E_(FX) \o E_(<<SQ,"}">>) \o P_(<<DQ>>)),
-  Sh("f_nest_same", "fstr", "", 2, P_(<<"f",SQ>>) \o E_(<<"{","f",SQ>>) \o L_(<<"a">>) \o E_(FX) \o E_(<<SQ,"}">>) \o P_(<<SQ>>)),
-  Sh("rf_sq", "fstr", "", 2, P_(<<"r","f",SQ>>) \o L_(<<"a">>) \o E_(FX) \o P_(<<SQ>>)),
-  Sh("f_spec_colon", "fstr", "", 3, P_(<<"f",DQ>>) \o E_(<<"{","x",":">>) \o S_(<<"%","H",":","%","M">>) \o E_(<<"}">>) \o P_(<<DQ>>)),
-  Sh("f_comment", "fstr", "", 2, P_(<<"f",DQ>>) \o E_(<<"{","x",SP,"#">>) \o M_(<<"c",SQ>>) \o E_(<<NL,"}">>) \o P_(<<DQ>>)),
-  Sh("f_same_str", "fstr", "", 2, P_(<<"f",DQ>>) \o E_(<<"{","a","[",DQ>>) \o L_(<<"b">>) \o E_(<<DQ,"]","}">>) \o P_(<<DQ>>)),
-  Sh("f_neq", "fstr", "", 3, P_(<<"f",DQ>>) \o E_(<<"{","x","!","=","1","}">>) \o P_(<<DQ>>)),
-  Sh("f_hash_str", "fstr", "", 3, P_(<<"f",DQ>>) \o E_(<<"{",SQ>>) \o L_(<<"#">>) \o E_(<<SQ,"}">>) \o P_(<<DQ>>)),
-  Sh("F_dq", "fstr", "", 2, P_(<<"F",DQ>>) \o L_(<<"a">>) \o E_(FX) \o P_(<<DQ>>)),
-  Sh("fr_sq", "fstr", "", 3, P_(<<"f","r",SQ>>) \o L_(<<"a">>) \o E_(FX) \o P_(<<SQ>>)),
-  Sh("F_nest_other", "fstr", "", 3, P_(<<"F",SQ>>) \o E_(<<"{","d","[",DQ>>) \o L_(<<"k">>) \o E_(<<DQ,"]","}">>) \o P_(<<SQ>>)),
-  Sh("f_dep", "fstr", "", 2, P_(<<"f">> \o DQ3) \o L_(<<NL>> \o Cimport \o <<SP,"q",NL>>) \o E_(FX) \o P_(DQ3)),
-  \* ---- valid Python on which the scanner of strip_string_literals is known to lose its place
-  Sh("hz_spec_hash", "hazard", "spec_hash", 1, P_(<<"f",DQ>>) \o E_(<<"{","x",":">>) \o S_(<<"#","x">>) \o E_(<<"}">>) \o P_(<<DQ>>)),
-  Sh("hz_spec_hash_tri", "hazard", "spec_hash", 2, P_(<<"f">> \o SQ3) \o E_(<<"{","x",":">>) \o S_(<<"#","x">>) \o E_(<<"}">>)
-                                                    \o L_(<<NL>>) \o P_(SQ3)),
-  Sh("hz_spec_quote", "hazard", "spec_quote", 2, P_(<<"f",DQ>>) \o E_(<<"{","x",":">>) \o S_(<<SQ,">","4">>) \o E_(<<"}">>) \o P_(<<DQ>>)),
-  Sh("hz_fr_same", "hazard", "fprefix_same_quote", 2, P_(<<"f","r",SQ>>) \o E_(<<"{",SQ>>) \o L_(<<"a">>) \o E_(<<SQ,"}">>) \o P_(<<SQ>>)),
-  Sh("hz_F_same", "hazard", "fprefix_same_quote", 3, P_(<<"F",DQ>>) \o E_(<<"{","d","[",DQ>>) \o L_(<<"k">>) \o E_(<<DQ,"]","}">>) \o P_(<<DQ>>)),
-  Sh("hz_kw_f", "hazard", "keyword_f", 2, C_(<<"x",SP,"i","f">>) \o P_(<<DQ>>) \o L_(<<"{">>) \o P_(<<DQ>>) \o C_(<<SP,"e","l","s","e",SP,"y">>)),
-  Sh("hz_named_escape", "hazard", "named_escape", 2, P_(<<"f",DQ>>) \o L_(<<BS,"N","{","B","E","L","}">>) \o E_(FX) \o P_(<<DQ>>)),
+  Sh("f_eq", "fstr", 3, P_(<<"f",SQ>>) \o E_(<<"{","x","=","}">>) \o P_(<<SQ>>)),
+  Sh("f_nest_other", "fstr", 1, P_(<<"f",DQ>>) \o E_(<<"{","d","[",SQ>>) \o L_(<<"k">>) \o E_(<<SQ,"]","}">>) \o P_(<<DQ>>)),
+  Sh("f_nest_brace", "fstr", 2, P_(<<"f",SQ>>) \o E_(<<"{","d","[",DQ>>) \o L_(<<"}">>) \o E_(<<DQ,"]","}">>) \o P_(<<SQ>>)),
+  Sh("f_dict", "fstr", 2, P_(<<"f",DQ>>) \o E_(<<"{",SP,"{","1",":","2","}","[","1","]",SP,"}">>) \o P_(<<DQ>>)),
+  Sh("f_dict_same_str", "fstr", 2, P_(<<"f",DQ>>) \o E_(<<"{",SP,"{","1",":","2","}","[",DQ>>) \o L_(<<"a">>) \o E_(<<DQ,"]","}">>) \o P_(<<DQ>>)),
+  Sh("f_tri", "fstr", 2, P_(<<"f">> \o SQ3) \o L_(<<"a",SQ>>) \o E_(FX) \o L_(<<DQ,NL>>) \o P_(SQ3)),
+  Sh("f_nest_f", "fstr", 2, P_(<<"f",DQ>>) \o E_(<<"{","f",SQ>>) \o L_(<<"a">>) \o E_(FX) \o E_(<<SQ,"}">>) \o P_(<<DQ>>)),
+  Sh("f_nest_same", "fstr", 2, P_(<<"f",SQ>>) \o E_(<<"{","f",SQ>>) \o L_(<<"a">>) \o E_(FX) \o E_(<<SQ,"}">>) \o P_(<<SQ>>)),
+  Sh("rf_sq", "fstr", 2, P_(<<"r","f",SQ>>) \o L_(<<"a">>) \o E_(FX) \o P_(<<SQ>>)),
+  Sh("f_spec_colon", "fstr", 3, P_(<<"f",DQ>>) \o E_(<<"{","x",":">>) \o S_(<<"%","H",":","%","M">>) \o E_(<<"}">>) \o P_(<<DQ>>)),
+  Sh("f_comment", "fstr", 2, P_(<<"f",DQ>>) \o E_(<<"{","x",SP,"#">>) \o M_(<<"c",SQ>>) \o E_(<<NL,"}">>) \o P_(<<DQ>>)),
+  Sh("f_same_str", "fstr", 2, P_(<<"f",DQ>>) \o E_(<<"{","a","[",DQ>>) \o L_(<<"b">>) \o E_(<<DQ,"]","}">>) \o P_(<<DQ>>)),
+  Sh("f_neq", "fstr", 3, P_(<<"f",DQ>>) \o E_(<<"{","x","!","=","1","}">>) \o P_(<<DQ>>)),
+  Sh("f_hash_str", "fstr", 3, P_(<<"f",DQ>>) \o E_(<<"{",SQ>>) \o L_(<<"#">>) \o E_(<<SQ,"}">>) \o P_(<<DQ>>)),
+  Sh("F_dq", "fstr", 2, P_(<<"F",DQ>>) \o L_(<<"a">>) \o E_(FX) \o P_(<<DQ>>)),
+  Sh("fr_sq", "fstr", 3, P_(<<"f","r",SQ>>) \o L_(<<"a">>) \o E_(FX) \o P_(<<SQ>>)),
+  Sh("F_nest_other", "fstr", 3, P_(<<"F",SQ>>) \o E_(<<"{","d","[",DQ>>) \o L_(<<"k">>) \o E_(<<DQ,"]","}">>) \o P_(<<SQ>>)),
+  Sh("f_dep", "fstr", 2, P_(<<"f">> \o DQ3) \o L_(<<NL>> \o Cimport \o <<SP,"q",NL>>) \o E_(FX) \o P_(DQ3)),
+  \* ---- format specs with '#' / quotes, every f-string prefix, names ending in f before a quote, \N{..}
+  Sh("f_spec_hash", "fstr", 1, P_(<<"f",DQ>>) \o E_(<<"{","x",":">>) \o S_(<<"#","x">>) \o E_(<<"}">>) \o P_(<<DQ>>)),
+  Sh("f_spec_hash_tri", "fstr", 2, P_(<<"f">> \o SQ3) \o E_(<<"{","x",":">>) \o S_(<<"#","x">>) \o E_(<<"}">>)
+                                    \o L_(<<NL>>) \o P_(SQ3)),
+  Sh("f_spec_quote", "fstr", 2, P_(<<"f",DQ>>) \o E_(<<"{","x",":">>) \o S_(<<SQ,">","4">>) \o E_(<<"}">>) \o P_(<<DQ>>)),
+  Sh("f_spec_field_hash", "fstr", 3, P_(<<"f",DQ>>) \o E_(<<"{","x",":","{","w","}">>) \o S_(<<"#">>) \o E_(<<"}">>) \o P_(<<DQ>>)),
+  Sh("fr_same", "fstr", 2, P_(<<"f","r",SQ>>) \o E_(<<"{",SQ>>) \o L_(<<"a">>) \o E_(<<SQ,"}">>) \o P_(<<SQ>>)),
+  Sh("F_same", "fstr", 3, P_(<<"F",DQ>>) \o E_(<<"{","d","[",DQ>>) \o L_(<<"k">>) \o E_(<<DQ,"]","}">>) \o P_(<<DQ>>)),
+  Sh("Rf_same", "fstr", 3, P_(<<"R","f",SQ>>) \o L_(<<"a">>) \o E_(<<"{",SQ>>) \o L_(<<"b">>) \o E_(<<SQ,"}">>) \o P_(<<SQ>>)),
+  Sh("fR_same", "fstr", 3, P_(<<"f","R",DQ>>) \o E_(<<"{",DQ>>) \o L_(<<"a">>) \o E_(<<DQ,"}">>) \o P_(<<DQ>>)),
+  Sh("kw_f", "code", 2, C_(<<"x",SP,"i","f">>) \o P_(<<DQ>>) \o L_(<<"{">>) \o P_(<<DQ>>) \o C_(<<SP,"e","l","s","e",SP,"y">>)),
+  Sh("f_named_escape", "fstr", 2, P_(<<"f",DQ>>) \o L_(<<BS,"N","{","B","E","L","}">>) \o E_(FX) \o P_(<<DQ>>)),
+  Sh("rf_bs_N", "fstr", 3, P_(<<"r","f",DQ>>) \o L_(<<BS,"N">>) \o E_(<<"{",SQ>>) \o L_(<<"a">>) \o E_(<<SQ,"}">>) \o P_(<<DQ>>)),
+  Sh("f_bs2_N", "fstr", 3, P_(<<"f",SQ>>) \o L_(<<BS,BS,"N">>) \o E_(<<"{",DQ>>) \o L_(<<"a">>) \o E_(<<DQ,"}">>) \o P_(<<SQ>>)),
+  Sh("f_slice_str", "fstr", 3, P_(<<"f",DQ>>) \o E_(<<"{","a","[","1",":",SQ>>) \o L_(<<"k">>) \o E_(<<SQ,"]","}">>) \o P_(<<DQ>>)),
   \* ---- comments (run to the end of the line)
-  Sh("cm_q", "comment", "", 1, P_(<<"#">>) \o M_(<<SP,"c",SQ,"q",DQ>>)),
-  Sh("cm_0", "comment", "", 2, P_(<<"#">>)),
-  Sh("cm_dep", "comment", "", 2, P_(<<"#">>) \o M_(<<SP>> \o Cimport \o <<SP,"q">>)),
-  Sh("cm_code", "comment", "", 2, C_(<<"x",SP,"=",SP,"1",SP>>) \o P_(<<"#">>) \o M_(<<SP,"{",SQ>>)),
-  Sh("cm_fq", "comment", "", 3, P_(<<"#">>) \o M_(<<"f",DQ,"{">>)),
+  Sh("cm_q", "comment", 1, P_(<<"#">>) \o M_(<<SP,"c",SQ,"q",DQ>>)),
+  Sh("cm_0", "comment", 2, P_(<<"#">>)),
+  Sh("cm_dep", "comment", 2, P_(<<"#">>) \o M_(<<SP>> \o Cimport \o <<SP,"q">>)),
+  Sh("cm_code", "comment", 2, C_(<<"x",SP,"=",SP,"1",SP>>) \o P_(<<"#">>) \o M_(<<SP,"{",SQ>>)),
+  Sh("cm_fq", "comment", 3, P_(<<"#">>) \o M_(<<"f",DQ,"{">>)),
   \* ---- code
-  Sh("code_cimport", "code", "", 1, C_(Cimport \o <<SP,"k">>)),
-  Sh("code_assign", "code", "", 2, C_(<<"x",SP,"=",SP,"1">>)),
-  Sh("code_dict", "code", "", 2, C_(<<"d",SP,"=",SP,"{","1",":",SP,"2","}">>)),
-  Sh("code_include", "code", "", 2, C_(Include \o <<SP>>) \o P_(<<DQ>>) \o L_(<<"y",".","p","x","i">>) \o P_(<<DQ>>)),
-  Sh("code_cont", "code", "", 3, C_(<<"x",SP,"=",SP,"y",SP,BS,NL,SP,"+",SP,"z">>)),
-  Sh("code_from", "code", "", 3, C_(<<"f","r","o","m",SP,"m",SP>> \o Cimport \o <<SP,"n">>)),
-  Sh("code_extern", "code", "", 3, C_(<<"c","d","e","f",SP,"e","x","t","e","r","n",SP,"f","r","o","m",SP>>) \o P_(<<SQ>>)
+  Sh("code_cimport", "code", 1, C_(Cimport \o <<SP,"k">>)),
+  Sh("code_assign", "code", 2, C_(<<"x",SP,"=",SP,"1">>)),
+  Sh("code_dict", "code", 2, C_(<<"d",SP,"=",SP,"{","1",":",SP,"2","}">>)),
+  Sh("code_include", "code", 2, C_(Include \o <<SP>>) \o P_(<<DQ>>) \o L_(<<"y",".","p","x","i">>) \o P_(<<DQ>>)),
+  Sh("code_cont", "code", 3, C_(<<"x",SP,"=",SP,"y",SP,BS,NL,SP,"+",SP,"z">>)),
+  Sh("code_from", "code", 3, C_(<<"f","r","o","m",SP,"m",SP>> \o Cimport \o <<SP,"n">>)),
+  Sh("code_extern", "code", 3, C_(<<"c","d","e","f",SP,"e","x","t","e","r","n",SP,"f","r","o","m",SP>>) \o P_(<<SQ>>)
                                     \o L_(<<"h",".","h">>) \o P_(<<SQ>>) \o C_(<<":">>))
 >>
 
@@ -245,30 +250,47 @@ Ref(T) == Run(T, [i |-> 1, stk |-> <<>>, out |-> <<>>, ok |-> TRUE, rules |-> {}
 RECURSIVE RunLen(_, _, _)
 RunLen(T, i, ch) == IF At(T, i) = ch THEN 1 + RunLen(T, i + 1, ch) ELSE 0
 
-NoTok == [k |-> "none", s |-> 0, qs |-> 0, e |-> 0, f |-> FALSE, ch |-> "", nbs |-> 0]
-QuoteTok(T, p) ==           \* (?P<fstring> f )? (?P<quote> '+ | "+ )  matched at p, or NoTok
-  IF T[p] = "f" /\ IsQ(At(T, p + 1))
-  THEN [NoTok EXCEPT !.k = "quote", !.s = p, !.qs = p + 1, !.e = p + 1 + RunLen(T, p + 1, T[p + 1]), !.f = TRUE, !.ch = T[p + 1]]
+NoTok == [k |-> "none", s |-> 0, qs |-> 0, e |-> 0, f |-> FALSE, raw |-> FALSE, ch |-> "", nbs |-> 0, nc |-> 0]
+WordChars == {"a","b","c","d","e","f","g","h","i","j","k","l","m","n","o","p","q","r","s","t","u","v","w","x","y","z",
+              "A","B","C","D","E","F","G","H","I","J","K","L","M","N","O","P","Q","R","S","T","U","V","W","X","Y","Z",
+              "0","1","2","3","4","5","6","7","8","9","_"}                       \* \w
+IsR(ch) == ch \in {"r", "R"}
+IsF(ch) == ch \in {"f", "F"}
+FPre(T, p, l) ==            \* [rR]?[fF][rR]?  matches T[p .. p+l-1]
+  CASE l = 1 -> IsF(At(T, p))
+    [] l = 2 -> (IsR(At(T, p)) /\ IsF(At(T, p + 1))) \/ (IsF(At(T, p)) /\ IsR(At(T, p + 1)))
+    [] l = 3 -> IsR(At(T, p)) /\ IsF(At(T, p + 1)) /\ IsR(At(T, p + 2))
+QuoteTok(T, p) ==           \* (?: (?<!\w) (?P<fstring> [rR]?[fF][rR]? ) )? (?P<quote> '+ | "+ )  matched at p, or NoTok
+  LET ls == {l \in 1..3 : FPre(T, p, l) /\ IsQ(At(T, p + l))} IN     \* at most one: the quote ends the letters
+  IF ls # {} /\ At(T, p - 1) \notin WordChars
+  THEN LET l == CHOOSE x \in ls : TRUE IN
+       [NoTok EXCEPT !.k = "quote", !.s = p, !.qs = p + l, !.e = p + l + RunLen(T, p + l, T[p + l]), !.f = TRUE,
+                     !.raw = (\E j \in p..(p + l - 1) : IsR(T[j])), !.ch = T[p + l]]
   ELSE IF IsQ(T[p]) THEN [NoTok EXCEPT !.k = "quote", !.s = p, !.qs = p, !.e = p + RunLen(T, p, T[p]), !.ch = T[p]]
   ELSE NoTok
 
-CodeSpecial == {"#", "{", "}", "f", SQ, DQ}
-RECURSIVE FindCode(_, _)    \* _FIND_TOKEN.search(code, p)
-FindCode(T, p) ==
+CodeSpecial == {"#", "{", "}", "(", ")", "[", "]", ":", "r", "R", "f", "F", SQ, DQ}
+RECURSIVE FindCode(_, _, _) \* _FIND_TOKEN.search(code, p);  field: _FIND_FSTRING_FIELD_TOKEN
+FindCode(T, field, p) ==
   IF p > Len(T) THEN NoTok
-  ELSE IF T[p] \notin CodeSpecial THEN FindCode(T, p + 1)
-  ELSE IF T[p] = "#" THEN [NoTok EXCEPT !.k = "comment", !.s = p, !.e = p + 1]
+  ELSE IF T[p] \notin CodeSpecial THEN FindCode(T, field, p + 1)
+  ELSE IF T[p] = "#" THEN [NoTok EXCEPT !.k = "comment", !.s = p, !.e = p + 1, !.ch = "#"]
   ELSE IF T[p] \in {"{", "}"} THEN [NoTok EXCEPT !.k = "brace", !.s = p, !.e = p + 1, !.ch = T[p]]
-  ELSE LET qt == QuoteTok(T, p) IN IF qt.k = "quote" THEN qt ELSE FindCode(T, p + 1)
+  ELSE IF field /\ T[p] \in {"(", ")", "[", "]", ":"} THEN [NoTok EXCEPT !.k = "bracket", !.s = p, !.e = p + 1, !.ch = T[p]]
+  ELSE LET qt == QuoteTok(T, p) IN IF qt.k = "quote" THEN qt ELSE FindCode(T, field, p + 1)
 
-StringSpecial == {"{", "}", BS, "f", SQ, DQ}
+StringSpecial == {"{", "}", BS, "r", "R", "f", "F", SQ, DQ}
 RECURSIVE FindStr(_, _, _)  \* _FIND_FSTRING_TOKEN / _FIND_STRING_TOKEN .search(code, p)
 FindStr(T, isf, p) ==
   IF p > Len(T) THEN NoTok
   ELSE IF T[p] \notin StringSpecial THEN FindStr(T, isf, p + 1)
   ELSE IF isf /\ T[p] \in {"{", "}"} THEN [NoTok EXCEPT !.k = "braces", !.s = p, !.e = p + RunLen(T, p, T[p]), !.ch = T[p]]
-  ELSE IF T[p] = BS /\ IsQ(At(T, p + RunLen(T, p, BS)))
-       THEN LET r == RunLen(T, p, BS) IN [NoTok EXCEPT !.k = "escape", !.s = p, !.e = p + r + 1, !.nbs = r, !.ch = T[p + r]]
+  ELSE IF T[p] = BS THEN
+       LET r == RunLen(T, p, BS)  n == p + r  cl == NextOf(T, n + 2, "}") IN
+       IF IsQ(At(T, n)) THEN [NoTok EXCEPT !.k = "escape", !.s = p, !.e = n + 1, !.nbs = r, !.ch = T[n]]
+       ELSE IF isf /\ At(T, n) = "N" /\ At(T, n + 1) = "{" /\ cl <= Len(T)       \* (?P<named_char> N [{] [^}]* [}] )
+            THEN [NoTok EXCEPT !.k = "named", !.s = p, !.e = cl + 1, !.nbs = r, !.nc = n]
+       ELSE FindStr(T, isf, p + 1)
   ELSE LET qt == QuoteTok(T, p) IN IF qt.k = "quote" THEN qt ELSE FindStr(T, isf, p + 1)
 
 \* output pieces <<tag, a, b>>; nxt = where the next piece has to start for the output to tile the text
@@ -277,72 +299,79 @@ Piece(T, o, a, b, tag) == [ps |-> Append(o.ps, <<tag, a, b>>), nxt |-> b,
 Keep(T, o, a, b) == Piece(T, o, a, b, "K")
 Lab(T, o, a, b) == Piece(T, o, a, b, "X")
 
-RECURSIVE PStr(_, _, _, _, _, _, _)   \* parse_string: loop state (start, cp); returns [pos, o]
-RECURSIVE PCode(_, _, _, _, _)        \* parse_code:   loop state (start, cp)
+RECURSIVE PStr(_, _, _, _, _, _, _, _)   \* parse_string: loop state (start, cp); returns [pos, o]
+RECURSIVE PCode(_, _, _, _, _, _, _)     \* parse_code:   loop state (start, cp, bracket_depth, in_format_spec)
 
-PStr(T, q, ql, isf, start, cp, o) ==
+PStr(T, q, ql, isf, raw, start, cp, o) ==
   LET tok == FindStr(T, isf, cp) IN
   IF tok.k = "none" THEN [pos |-> 0, o |-> Lab(T, o, start, Len(T) + 1)]        \* unclosed literal
+  ELSE IF tok.k = "named" THEN
+       \* \N{NAME} is literal text unless the string is raw or the backslash is itself escaped:
+       \* then N is a plain letter and scanning resumes right after it (at the '{')
+       PStr(T, q, ql, isf, raw, start, IF raw \/ tok.nbs % 2 = 0 THEN tok.nc + 1 ELSE tok.e, o)
   ELSE IF tok.k = "escape" THEN
        \* an even run of backslashes before our own quote: look at the quote next
-       PStr(T, q, ql, isf, start, IF tok.nbs % 2 = 0 /\ tok.ch = q THEN tok.e - 1 ELSE tok.e, o)
+       PStr(T, q, ql, isf, raw, start, IF tok.nbs % 2 = 0 /\ tok.ch = q THEN tok.e - 1 ELSE tok.e, o)
   ELSE IF tok.k = "braces" THEN
-       IF (tok.e - tok.s) % 2 = 0 \/ tok.ch = "}" THEN PStr(T, q, ql, isf, start, tok.e, o)
+       IF (tok.e - tok.s) % 2 = 0 \/ tok.ch = "}" THEN PStr(T, q, ql, isf, raw, start, tok.e, o)
        ELSE LET o1 == IF start < tok.e - 1 THEN Lab(T, o, start, tok.e - 1) ELSE o
-                r == PCode(T, tok.e, tok.e, TRUE, Keep(T, o1, tok.e - 1, tok.e))
-            IN IF r.pos = 0 THEN r ELSE PStr(T, q, ql, isf, r.pos, r.pos, r.o)
+                r == PCode(T, tok.e, tok.e, TRUE, 0, FALSE, Keep(T, o1, tok.e - 1, tok.e))
+            IN IF r.pos = 0 THEN r ELSE PStr(T, q, ql, isf, raw, r.pos, r.pos, r.o)
   ELSE IF tok.ch = q /\ tok.e - tok.qs >= ql                                     \* token['quote'].startswith(quote_type)
        THEN LET o1 == IF tok.qs > start THEN Lab(T, o, start, tok.qs) ELSE o
             IN [pos |-> tok.qs + ql, o |-> Keep(T, o1, tok.qs, tok.qs + ql)]
-  ELSE PStr(T, q, ql, isf, start, tok.e, o)
+  ELSE PStr(T, q, ql, isf, raw, start, tok.e, o)
 
-PCode(T, start, cp, inf, o) ==
-  LET tok == FindCode(T, cp) IN
+PCode(T, start, cp, inf, depth, spec, o) ==
+  LET tok == FindCode(T, inf, cp) IN
   IF tok.k = "none" THEN [pos |-> 0, o |-> Keep(T, o, start, Len(T) + 1)]
+  ELSE IF spec /\ tok.k # "brace" THEN PCode(T, start, tok.e, inf, depth, spec, o)   \* format spec: plain text but for { }
   ELSE IF tok.k = "quote" THEN
        LET n0 == tok.e - tok.qs
            n1 == IF n0 >= 6 THEN n0 % 6 ELSE n0            \* runs of six are empty triple-quoted strings
            ql == IF n1 > 3 THEN 3 ELSE n1
            end == IF n1 > 3 THEN tok.e - (n1 - 3) ELSE tok.e
        IN IF n1 # 0 /\ n1 # 2
-          THEN LET r == PStr(T, tok.ch, ql, tok.f, end, end, Keep(T, o, start, end))
-               IN IF r.pos = 0 THEN r ELSE PCode(T, r.pos, r.pos, inf, r.o)
-          ELSE PCode(T, start, tok.e, inf, o)
+          THEN LET r == PStr(T, tok.ch, ql, tok.f, tok.raw, end, end, Keep(T, o, start, end))
+               IN IF r.pos = 0 THEN r ELSE PCode(T, r.pos, r.pos, inf, depth, spec, r.o)
+          ELSE PCode(T, start, tok.e, inf, depth, spec, o)
   ELSE IF tok.k = "comment" THEN
        LET nl == LineEnd(T, tok.e)
            o2 == Lab(T, Keep(T, o, start, tok.e), tok.e, nl)
-       IN IF nl > Len(T) THEN [pos |-> 0, o |-> o2] ELSE PCode(T, nl, nl, inf, o2)
-  ELSE IF inf /\ tok.ch = "}" THEN [pos |-> tok.s + 1, o |-> Keep(T, o, start, tok.s + 1)]
-  ELSE IF inf THEN LET r == PCode(T, tok.s + 1, tok.s + 1, TRUE, Keep(T, o, start, tok.s + 1))
-                   IN IF r.pos = 0 THEN r ELSE PCode(T, r.pos, r.pos, inf, r.o)
-  ELSE PCode(T, start, tok.e, inf, o)
+       IN IF nl > Len(T) THEN [pos |-> 0, o |-> o2] ELSE PCode(T, nl, nl, inf, depth, spec, o2)
+  ELSE IF ~inf THEN PCode(T, start, tok.e, inf, depth, spec, o)                   \* a brace in plain code
+  ELSE IF spec /\ tok.ch = "{" THEN                                                \* nested field in a format spec
+       LET r == PCode(T, tok.e, tok.e, TRUE, 0, FALSE, Keep(T, o, start, tok.e))
+       IN IF r.pos = 0 THEN r ELSE PCode(T, r.pos, r.pos, inf, depth, spec, r.o)
+  ELSE IF tok.ch \in {"{", "(", "["} THEN PCode(T, start, tok.e, inf, depth + 1, spec, o)
+  ELSE IF depth > 0 THEN PCode(T, start, tok.e, inf, IF tok.ch # ":" THEN depth - 1 ELSE depth, spec, o)
+  ELSE IF tok.ch = "}" THEN [pos |-> tok.e, o |-> Keep(T, o, start, tok.e)]      \* end of the replacement field
+  ELSE PCode(T, start, tok.e, inf, depth, spec \/ tok.ch = ":", o)                \* ':' starts the format spec; stray ) ]
 
 RECURSIVE Expand(_, _)      \* pieces -> one K/X per character
 Expand(ps, k) == IF k > Len(ps) THEN <<>> ELSE Fill(ps[k][1], ps[k][3] - ps[k][2]) \o Expand(ps, k + 1)
-Impl(T) == LET o == PCode(T, 1, 1, FALSE, [ps |-> <<>>, nxt |-> 1, ok |-> TRUE]).o
+Impl(T) == LET o == PCode(T, 1, 1, FALSE, 0, FALSE, [ps |-> <<>>, nxt |-> 1, ok |-> TRUE]).o
            IN [kx |-> IF o.ok THEN Expand(o.ps, 1) ELSE <<>>, ok |-> o.ok /\ o.nxt = Len(T) + 1]
 
 ---------------------------------------------------------------------------
 VARIABLES names,   \* token and joiner names of the text
           text, decl,
-          hz,      \* hazard of the text ("" if none), hzpos: index of its first character
-          hzpos,
           last,    \* index into Shapes of the last token (0: none), ended: final newline added
           ended,
           ref, impl
-vars == <<names, text, decl, hz, hzpos, last, ended, ref, impl>>
+vars == <<names, text, decl, last, ended, ref, impl>>
 
 Scanned(T) == /\ ref' = Ref(T)
               /\ impl' = Impl(T)
 
-Init == /\ names = <<>> /\ text = <<>> /\ decl = <<>> /\ hz = "" /\ hzpos = 0 /\ last = 0 /\ ended = FALSE
+Init == /\ names = <<>> /\ text = <<>> /\ decl = <<>> /\ last = 0 /\ ended = FALSE
         /\ ref = Ref(<<>>) /\ impl = Impl(<<>>)
 
 \* two string tokens may touch unless that merges their quotes into another token
 CanGlue(k) == /\ Glue /\ last # 0
               /\ IsQ(text[Len(text)])
               /\ LET c1 == Shapes[k].cs[1].ch IN
-                 /\ (IsQ(c1) \/ (c1 \in {"f", "F", "r", "R", "b", "U"} /\ Shapes[k].cat \in {"plain", "fstr", "hazard"}))
+                 /\ (IsQ(c1) \/ (c1 \in {"f", "F", "r", "R", "b", "U"} /\ Shapes[k].cat \in {"plain", "fstr"}))
                  /\ ~(Len(Shapes[last].cs) = 2 /\ c1 = text[Len(text)])   \* '' + 'a' would read '''a'
 Joiners(k) == IF last = 0 THEN {"start"}
               ELSE (IF Shapes[last].cat = "comment" THEN {} ELSE {"sp"} \cup (IF CanGlue(k) THEN {"glue"} ELSE {})) \cup {"nl"}
@@ -351,27 +380,23 @@ JChars(j) == CASE j = "sp" -> <<SP>> [] j = "nl" -> <<NL>> [] OTHER -> <<>>
 Add(k, j) ==
   LET sh == Shapes[k]  jc == JChars(j)  T == text \o jc \o Chars(sh.cs) IN
   /\ ~ended /\ Len(names) < 2 * MaxToks - 1
-  /\ sh.hz # "" => hz = ""                     \* at most one hazard token per text
   /\ names' = (IF last = 0 THEN <<>> ELSE names \o <<j>>) \o <<sh.name>>
   /\ text' = T
   /\ decl' = decl \o Fill("C", Len(jc)) \o Classes(sh.cs)
-  /\ hz' = IF sh.hz # "" THEN sh.hz ELSE hz
-  /\ hzpos' = IF sh.hz # "" THEN Len(text) + Len(jc) + 1 ELSE hzpos
   /\ last' = k /\ ended' = FALSE
   /\ Scanned(T)
 
 Idx == IF last = 0 THEN IdxFirst ELSE IdxNext
 AddPlain   == \E k \in Idx : Shapes[k].cat = "plain"   /\ \E j \in Joiners(k) : Add(k, j)
 AddFString == \E k \in Idx : Shapes[k].cat = "fstr"    /\ \E j \in Joiners(k) : Add(k, j)
-AddHazard  == \E k \in Idx : Shapes[k].cat = "hazard"  /\ \E j \in Joiners(k) : Add(k, j)
 AddComment == \E k \in Idx : Shapes[k].cat = "comment" /\ \E j \in Joiners(k) : Add(k, j)
 AddCode    == \E k \in Idx : Shapes[k].cat = "code"    /\ \E j \in Joiners(k) : Add(k, j)
 EndLine == /\ ~ended /\ last # 0
            /\ text' = text \o <<NL>> /\ decl' = decl \o <<"C">> /\ names' = names \o <<"nl">>
-           /\ ended' = TRUE /\ UNCHANGED <<hz, hzpos, last>>
+           /\ ended' = TRUE /\ UNCHANGED last
            /\ Scanned(text \o <<NL>>)
 
-Next == AddPlain \/ AddFString \/ AddHazard \/ AddComment \/ AddCode \/ EndLine
+Next == AddPlain \/ AddFString \/ AddComment \/ AddCode \/ EndLine
 Spec == Init /\ [][Next]_vars
 
 ---------------------------------------------------------------------------
@@ -389,15 +414,13 @@ BadSet == {i \in 1..N : Bad(i)}
 
 \* the transcribed algorithm always tiles the text: substituting back is the identity
 ImplLossless == impl.ok /\ Len(impl.kx) = N
-\* ... and it strips exactly what must be stripped on every text without a hazard token
-ImplOKOffHazards == hz = "" => BadSet = {}
-\* a hazard token cannot do harm before it starts
-HazardLocal == \A i \in BadSet : i >= hzpos
+\* ... and it replaces every literal / comment body character and keeps every code character, on every text
+ImplOK == BadSet = {}
 
 RECURSIVE Cat(_)
 Cat(s) == IF s = <<>> THEN "" ELSE s[1] \o Cat(Tail(s))
 
 Publish == Dump => PrintT("@@" \o ToJson([names |-> names, text |-> text, ref |-> Cat(ref.out), impl |-> Cat(impl.kx),
-                                            hz |-> hz, hzpos |-> hzpos, mbad |-> BadSet # {}, rules |-> ref.rules,
+                                            rules |-> ref.rules,
                                             act |-> IF ended THEN "EndLine" ELSE IF last = 0 THEN "Init" ELSE Shapes[last].cat]))
 =============================================================================
